@@ -154,12 +154,10 @@ static std::string handle(std::string const& op, std::vector<std::string> const&
   server->socket_disconnected_event(disconnected_handler);
   server->message_sent_event(sent_handler);
   unsigned short port = 0;
-  for (unsigned short p = static_cast<unsigned short>(20000 + (seed * 7u + static_cast<unsigned>(getpid())) % 20000); ; ++p)
-  {
-    boost::system::error_code ec(server->accept_connections(p));
-    if (!ec) { port = p; break; }
-    if (p > 60000) return "HARNESS-ERROR no-port";
-  }
+  port = hu::free_port(seed * 7u + static_cast<unsigned>(getpid()));
+  if (!port) return "HARNESS-ERROR no-port";
+  try { boost::system::error_code ec(server->accept_connections(port)); if (ec) return "HARNESS-ERROR listen: " + ec.message(); }
+  catch (std::exception const& e) { return std::string("HARNESS-ERROR listen: ") + e.what(); }
   std::vector<std::thread> pool;
   for (int i = 0; i < nthreads; ++i) pool.emplace_back([&io_context]() { io_context.run(); });
 
